@@ -341,13 +341,15 @@ class DomInit(Spec):
 
     prop, file, qualname = PROP, DOM, "DominanceInfo.__init__"
     modifies = ["dict#dom", "dict#val", "_dominance"]
+    loop_alloc = True  # objects created in one iteration of a cut loop are distinct from those created in other iterations
 
-    def __init__(self):
-        pass
+    INTER_TEXT = "set[Block].intersection(*(self._dominance[p] for p in pred[b]))"
 
     @property
     def globals(self):
         from pyvc.values import VSeq
+
+        spec = self
 
         def ga(ex, st, base, attr):
             if attr == "blocks":
@@ -358,11 +360,34 @@ class DomInit(Spec):
                 return VSeq(OSUCC(base.z), ONSUCC(base.z), "ref", "Block")
             return None
 
-        return {"__getattr__": ga}
+        def expr(ex, st, text):
+            if text != spec.INTER_TEXT:
+                return None
+            # the intersection of the current dominator sets of the predecessors of b: a new set, characterised pointwise
+            b = st.env["b"].z
+            table = st.sel("_dominance", st.env["self"].z)
+            ps = st.dict_val(st.env["pred"].z, b)
+            p_, x = z3.Ints("ie!p ie!x")
+            ex.oblige(st, "call-pre", "every-predecessor-has-an-entry-in-the-table", forall([p_], z3.Implies(st.dict_has(ps, p_), st.dict_has(table, p_))), "aux")
+            r = st.new_object("intersection")
+            dom = st.fresh("inter_dom", z3.ArraySort(I, Bo))
+            st.assume(forall([x], dom[x] == forall([p_], z3.Implies(st.dict_has(ps, p_), st.dict_has(st.dict_val(table, p_), x)))))
+            st.dict_store(r, dom, z3.K(I, z3.IntVal(0)))
+            return VRef(r, "set", ("set", "ref"))
+
+        def set_of(ex, st, arg):
+            # set(region.blocks): membership is `is a block of the region`
+            if isinstance(arg, VSeq) and arg.arr.eq(RBLOCKS(spec._r)):
+                x = z3.Int("so!x")
+                return z3.Lambda([x], INR(spec._r, x))
+            return None
+
+        return {"__getattr__": ga, "__expr__": expr, "__expr_calls__": True, "__set_of__": set_of}
 
     def setup(self, st, inst):
         me = st.declare_input("self", z3.Int("self"))
         r = st.declare_input("region", z3.Int("region"))
+        self._r = r
         return {"self": VRef(me, "DominanceInfo"), "region": VRef(r, "Region"), "_me": me, "_r": r}
 
     def pre(self, st, a):
@@ -376,12 +401,106 @@ class DomInit(Spec):
                     z3.And(INR(r, b), LASTOP(b) != 0, k >= 0, k < ONSUCC(LASTOP(b))), INR(r, OSUCC(LASTOP(b))[k])))),
                 A("successor-lists-have-lengths", forall([p], ONSUCC(p) >= 0))]
 
+    # ---- vocabulary of the invariants
+    @staticmethod
+    def pset(st, pred, b):
+        return st.dict_dom(st.dict_val(pred, b))
+
+    def pred_is(self, st, pred, r, upto, inner=None):
+        """pred[b] = { p among the first `upto` blocks (plus, for block #upto, its first `inner` successors) : p -> b }, for every block b of the region."""
+        b, p, m = z3.Ints("pi!b pi!p pi!m")
+        blk = lambda i: RBLOCKS(r)[i]
+        full = z3.And(INR(r, p), IDXR(r, p) < upto, LASTOP(p) != 0, z3.Exists([m], z3.And(m >= 0, m < ONSUCC(LASTOP(p)), OSUCC(LASTOP(p))[m] == b)))
+        part = z3.BoolVal(False) if inner is None else z3.And(p == blk(upto), z3.Exists([m], z3.And(m >= 0, m < inner, OSUCC(LASTOP(p))[m] == b)))
+        return forall([b, p], z3.Implies(INR(r, b), self.pset(st, pred, b)[p] == z3.Or(full, part)))
+
+    def pred_shape(self, st, pred, r, upto):
+        """pred has a key for each of the first `upto` blocks; the value sets are distinct allocated objects, none of them the table or pred itself."""
+        b, c = z3.Ints("ps!b ps!c")
+        has = lambda x: z3.And(INR(r, x), IDXR(r, x) < upto)
+        return z3.And(forall([b], z3.Implies(has(b), z3.And(st.dict_has(pred, b), st.dict_val(pred, b) != 0, st.alloc()[st.dict_val(pred, b)], st.dict_val(pred, b) != pred))),
+                      forall([b, c], z3.Implies(z3.And(has(b), has(c), b != c), st.dict_val(pred, b) != st.dict_val(pred, c))),
+                      forall([b], z3.Implies(st.dict_has(pred, b), has(b))))
+
+    def table_shape(self, st, me, pred, r, upto):
+        """The table has the entry block and the first `upto` other blocks as keys; value sets are allocated, pairwise distinct, distinct from pred's sets."""
+        b, c = z3.Ints("ts!b ts!c")
+        t = st.sel("_dominance", me)
+        has = lambda x: z3.And(INR(r, x), IDXR(r, x) <= upto)
+        return z3.And(t != 0, t != pred, forall([b], st.dict_has(t, b) == has(b)),
+                      forall([b], z3.Implies(has(b), z3.And(st.dict_val(t, b) != 0, st.alloc()[st.dict_val(t, b)], st.dict_val(t, b) != t, st.dict_val(t, b) != pred))),
+                      forall([b, c], z3.Implies(z3.And(has(b), INR(r, c)), st.dict_val(t, b) != st.dict_val(pred, c))))
+
+    @staticmethod
+    def doms(st, me, b):
+        return st.dict_dom(st.dict_val(st.sel("_dominance", me), b))
+
+    def equation(self, st, me, pred, r, b):
+        """Dom(b) = {b} U (intersection over pred[b], or all blocks if pred[b] is empty) - in the CURRENT table."""
+        x, p = z3.Ints("eq!x eq!p")
+        ps = self.pset(st, pred, b)
+        nonempty = z3.Exists([p], ps[p])
+        rhs = z3.If(nonempty, forall([p], z3.Implies(ps[p], self.doms(st, me, p)[x])), INR(r, x))
+        return forall([x], self.doms(st, me, b)[x] == z3.Or(x == b, rhs))
+
     def inv(self, n, entry, st, a, lv):
-        print("DomInit inv", n, sorted(lv["env"].keys()), flush=True)
-        return [A("todo", z3.BoolVal(True))]
+        me, r = a["_me"], a["_r"]
+        env = lv["env"]
+        pred = env["pred"].z
+        k = lv.get("k")
+        b, x = z3.Ints("iv!b iv!x")
+        blk = lambda i: RBLOCKS(r)[i]
+        n_all = RNB(r)
+        frame = [A("self-table-object-unchanged", st.sel("_dominance", me) == entry.sel("_dominance", me))]
+        if n == 0:
+            # for b in region.blocks: pred[b] = set()
+            return frame + [A("pred-has-an-empty-set-for-each-processed-block", z3.And(self.pred_shape(st, pred, r, k), forall([b, x], z3.Implies(
+                z3.And(INR(r, b), IDXR(r, b) < k), z3.Not(self.pset(st, pred, b)[x]))))),
+                            A("table-still-empty", forall([b], z3.Not(st.dict_has(st.sel("_dominance", me), b))))]
+        if n == 1:
+            # for b in region.blocks: if b.last_op is not None: for s in b.last_op.successors: pred[s].add(b)
+            return frame + [A("pred-shape", self.pred_shape(st, pred, r, n_all)), A("pred-collects-the-edges-of-processed-blocks", self.pred_is(st, pred, r, k)),
+                            A("table-still-empty", forall([b], z3.Not(st.dict_has(st.sel("_dominance", me), b))))]
+        if n == 2:
+            k1 = lv["outer"][1]
+            return frame + [A("pred-shape", self.pred_shape(st, pred, r, n_all)), A("pred-collects-the-edges-so-far", self.pred_is(st, pred, r, k1, k)),
+                            A("table-still-empty", forall([b], z3.Not(st.dict_has(st.sel("_dominance", me), b))))]
+        pred_done = [A("pred-shape", self.pred_shape(st, pred, r, n_all)), A("pred-is-the-predecessor-relation", self.pred_is(st, pred, r, n_all)),
+                     A("pred-unchanged", z3.And(*[z3.BoolVal(True)]))]
+        entry_eq = A("entry-is-dominated-only-by-itself", forall([x], self.doms(st, me, blk(0))[x] == (x == blk(0))))
+        if n == 3:
+            # for b in blocks: self._dominance[b] = set(region.blocks)
+            return frame + pred_done + [A("table-shape", self.table_shape(st, me, pred, r, k)), entry_eq]
+        changed = env["changed"]
+        ch = changed.z if isinstance(changed, VBool) else z3.BoolVal(bool(changed))
+        all_eq = lambda upto: forall([b], z3.Implies(z3.And(INR(r, b), IDXR(r, b) >= 1, IDXR(r, b) <= upto), self.equation(st, me, pred, r, b)))
+        shape = A("table-shape", self.table_shape(st, me, pred, r, n_all - 1))
+        if n == 4:
+            # while changed: ...
+            return frame + pred_done + [shape, entry_eq, A("no-change-in-the-last-sweep-means-every-equation-holds", z3.Implies(z3.Not(ch), all_eq(n_all - 1)))]
+        # n == 5: for b in blocks (one sweep); `entry` is the state at the start of the sweep
+        same_content = forall([b, x], z3.Implies(INR(r, b), self.doms(st, me, b)[x] == self.doms(entry, me, b)[x]))
+        return frame + pred_done + [shape, entry_eq,
+                                    A("while-nothing-changed-the-sets-are-as-at-the-start-of-the-sweep-and-visited-blocks-satisfy-their-equation",
+                                      z3.Implies(z3.Not(ch), z3.And(same_content, all_eq(k))))]
 
     def post(self, old, st, a, res):
-        return []
+        me, r = a["_me"], a["_r"]
+        b, x = z3.Ints("po!b po!x")
+        pred_rel = lambda p_, b_: z3.And(INR(r, p_), LASTOP(p_) != 0, z3.Exists([x], z3.And(x >= 0, x < ONSUCC(LASTOP(p_)), OSUCC(LASTOP(p_))[x] == b_)))
+        p_ = z3.Int("po!p")
+        y = z3.Int("po!y")
+        has_pred = lambda b_: z3.Exists([p_], pred_rel(p_, b_))
+        eq = lambda b_: forall([y], self.doms(st, me, b_)[y] == z3.Or(y == b_, z3.If(has_pred(b_), forall([p_], z3.Implies(pred_rel(p_, b_), self.doms(st, me, p_)[y])), INR(r, y))))
+        t = st.sel("_dominance", me)
+        return [C("the-table-has-exactly-the-blocks-of-the-region", z3.Implies(RNB(r) > 0, forall([b], st.dict_has(t, b) == INR(r, b)))),
+                C("empty-region-empty-table", z3.Implies(RNB(r) == 0, forall([b], z3.Not(st.dict_has(t, b))))),
+                C("the-entry-block-is-dominated-only-by-itself", z3.Implies(RNB(r) > 0, forall([y], self.doms(st, me, RBLOCKS(r)[0])[y] == (y == RBLOCKS(r)[0])))),
+                C("every-other-block-satisfies-the-dominance-equation-at-exit", forall([b], z3.Implies(z3.And(INR(r, b), IDXR(r, b) >= 1), eq(b))))]
+
+    def native_search(self, inst, seed):
+        r = N24.explore("quick", seed)
+        return r["failures"][0] if r["failures"] else None
 
 
 NATIVE = [("all-small-cfgs", N24.explore)]
